@@ -52,3 +52,41 @@ Lemma src_blocks n1 n2 w1 w2 s :
   gen_sa_block2 n1 n2 w1 w2 s = (n1, n1 + n2, gen_sa_nadd2 s, gen_sa_nadd2 s + w2) /\
   gen_sa_nrows n1 n2 = n1 + n2.
 Proof. repeat split. Qed.
+
+(* ---- znum: the row of spZall that the source reads is (fiber-1)*nper + znum - 1 (0-based), the model's row *)
+Lemma src_znum_row fiber nper znum : gen_z_row (gen_znum_fiber fiber nper znum) = (fiber - 1) * nper + znum - 1.
+Proof. unfold gen_z_row, gen_znum_fiber. lia. Qed.
+
+Lemma src_zall_row c znum f fiber :
+  ext1 (WZall c znum) f fiber =
+  let i := gen_z_row (gen_znum_fiber fiber (f_nper f) znum) in
+  if i <? 0 then None else nth_error (nth c (f_zall f) []) (Z.to_nat i).
+Proof.
+  cbv zeta. rewrite src_znum_row. cbn [ext1]. unfold row1.
+  replace ((fiber - 1) * f_nper f + znum - 1 <? 0) with ((fiber - 1) * f_nper f + znum <? 1) by lia.
+  reflexivity.
+Qed.
+
+(* ---- number_of_fibers: threshold and fibre count *)
+Lemma src_nfiber : gen_nfiber_boss_mjd = boss_first_mjd /\ gen_nfiber_sdss = sdss_nfiber.
+Proof. split; reflexivity. Qed.
+
+(* ---- format strings and environment variable names *)
+Definition name_SPECTRO_REDUX : list Z := [83; 80; 69; 67; 84; 82; 79; 95; 82; 69; 68; 85; 88].
+Definition name_BOSS_SPECTRO_REDUX : list Z := [66; 79; 83; 83; 95; 83; 80; 69; 67; 84; 82; 79; 95; 82; 69; 68; 85; 88].
+
+Lemma src_formats :
+  gen_dir_plate_width = plate_width /\ gen_pmjd_plate_width = plate_width /\ gen_pmjd_mjd_width = mjd_width /\
+  gen_pmjd_sep = [dash] /\
+  (gen_pre_spplate, gen_suf_spplate) = (pre_spplate, dot_fits) /\
+  (gen_pre_spzbest, gen_suf_spzbest) = (pre_spzbest, dot_fits) /\
+  (gen_pre_spzall, gen_suf_spzall) = (pre_spzall, dot_fits) /\
+  (gen_pre_photoplate, gen_suf_photoplate) = (pre_photoplate, dot_fits) /\
+  gen_env_int_run2d = name_SPECTRO_REDUX /\ gen_env_other_run2d = name_BOSS_SPECTRO_REDUX.
+Proof. repeat split. Qed.
+
+(* the file name of the model, spelled with the extracted pieces *)
+Lemma src_file_name plate mjd :
+  file_name pre_spplate plate mjd =
+  gen_pre_spplate ++ (fmt gen_pmjd_plate_width plate ++ gen_pmjd_sep ++ fmt gen_pmjd_mjd_width mjd) ++ gen_suf_spplate.
+Proof. reflexivity. Qed.
